@@ -12,7 +12,7 @@ echo $ids | tr ' ' '\n' | xargs -P $par -I{} sh -c 'id={}; p=${id%%-*}; d=/verif
   git -C /repo worktree remove --force $wt 2>/dev/null; git -C /repo worktree add -q --detach $wt HEAD || exit 0
   git -C $wt apply $d/patch.diff || { echo "== $id patch does not apply"; git -C /repo worktree remove --force $wt; exit 0; }
   (cd '$snap' && VERIF_REPO=$wt python3 scripts/check.py $p quick > $d/detect-$p.log 2>&1; echo "[$p exit=$?]" >> $d/detect-$p.log)
-  r=$(grep -o "replay=[^ ]*" $d/detect-$p.log | head -1 | cut -d= -f2); [ -n "$r" ] && [ -f "$r" ] && cp "$r" $d/replay-$p.json
+  r=$(grep VIOLATION $d/detect-$p.log | grep -o "replay=[^ ]*" | head -1 | cut -d= -f2); [ -n "$r" ] && [ -f "$r" ] && cp "$r" $d/replay-$p.json
   sed -i "s#'$snap'#/verif#g" $d/detect-$p.log
   echo "== $id $p: $(grep -E "VIOLATION|exit=" $d/detect-$p.log | cut -c1-160 | tr "\n" " ")"
   git -C /repo worktree remove --force $wt'
